@@ -9,7 +9,9 @@ import time
 from dataclasses import dataclass, field
 
 ROOT = os.path.dirname(os.path.dirname(os.path.abspath(__file__)))
-WORK = os.path.join(ROOT, '.work')
+WORK = os.getenv('VF_WORK') or os.path.join(ROOT, '.work')
+EVID = os.getenv('VF_EVIDENCE_DIR') or os.path.join(ROOT, 'evidence')
+REPLAYS = os.path.join(WORK, 'replays') if os.getenv('VF_WORK') else os.path.join(ROOT, 'replays')
 PY = os.path.join(ROOT, '.venv', 'bin', 'python')
 NPROC = int(os.getenv('VF_NPROC', '14'))
 
@@ -83,7 +85,7 @@ class Job:
         self.tag = tag
 
     def start(self):
-        env = dict(os.environ, PYTHONPATH=ROOT, MPYC_NONUMPY=os.environ.get('MPYC_NONUMPY', '1'),
+        env = dict(os.environ, PYTHONPATH=(os.environ['VF_REPO'] + os.pathsep + ROOT) if os.environ.get('VF_REPO') else ROOT, MPYC_NONUMPY=os.environ.get('MPYC_NONUMPY', '1'),
                    PYTHONHASHSEED='0', PYTHONDONTWRITEBYTECODE='1')
         self.t0 = time.time()
         self.proc = subprocess.Popen(self.args, cwd=ROOT, env=env, stdout=open(self.log, 'w'),
@@ -246,10 +248,10 @@ def run_check(cid, tier, only=None, verbose=True):
             for mdl, rr in reproduced:
                 sig = f'{it.name}:{mdl["label"]}'
                 hit = [k for k in known if k[0] == cid and k[1] == sig]
-                os.makedirs(os.path.join(ROOT, 'replays'), exist_ok=True)
+                os.makedirs(REPLAYS, exist_ok=True)
                 import re
                 safe = re.sub(r'[^A-Za-z0-9_.,=#\[\]()<>-]+', '_', f'{it.name}-{mdl["label"]}')[:140]
-                rp = os.path.join(ROOT, 'replays', f'{cid}-{safe}.json')
+                rp = os.path.join(REPLAYS, f'{cid}-{safe}.json')
                 json.dump(dict(property=cid, tier=tier, instance=it.name, index=j.idx, label=mdl['label'],
                                values=mdl['values'], symbolic_observed=mdl.get('observed'),
                                replay=dict(failures=rr.get('failures'), status=rr.get('status'), error=rr.get('error'),
@@ -292,8 +294,8 @@ def run_check(cid, tier, only=None, verbose=True):
         assumptions=sorted(assumptions) + list(getattr(mod, 'ASSUMPTIONS', [])),
         wall_s=round(wall, 2), violations=len(violations),
     )
-    os.makedirs(os.path.join(ROOT, 'evidence'), exist_ok=True)
-    with open(os.path.join(ROOT, 'evidence', f'{cid}.json'), 'w') as f:
+    os.makedirs(EVID, exist_ok=True)
+    with open(os.path.join(EVID, f'{cid}.json'), 'w') as f:
         json.dump(ev, f, indent=1, default=str)
     if verbose:
         for i in per_inst:
